@@ -28,6 +28,7 @@ pub fn generate(ctx: &GenCtx, profile: &str, run: u64) -> Option<Plan> {
         "purity-proc" => crate::gen2::purity_proc(ctx, &mut rng, run),
         "radix-arith" => crate::gen2::radix_arith(ctx, &mut rng, run)?,
         "radix-e2e" => crate::gen2::radix_e2e(ctx, &mut rng, run)?,
+        "tall" => crate::gen2::tall(ctx, &mut rng, run)?,
         "handover" => crate::gen2::handover(ctx, &mut rng, run),
         "limits" => crate::gen2::limits(ctx, &mut rng, run)?,
         _ => return None,
@@ -73,9 +74,18 @@ pub fn pick_plain_hash(rng: &mut Rng) -> HashId {
 
 pub fn msg(rng: &mut Rng, n: usize) -> Msg {
     let edges = [0usize, 1, n - 1, n, n + 1, 17, 55, 56, 64, 119, 120];
-    let len = match rng.below(10) {
+    let len = match rng.below(12) {
         0..=5 => *rng.pick(&edges),
         6..=8 => rng.range(2, 300) as usize,
+        9 | 10 => {
+            // what the message hash absorbs is I || q || D_MESG || C || message = 22 + n + len bytes: put that
+            // total at and around multiples of every block / buffer size an implementation may use
+            let b = *rng.pick(&[64usize, 128, 136, 256, 512, 1024, 4096]);
+            let k = *rng.pick(&[1usize, 2, 3, 4, 8, 16, 17, 32]);
+            let total = (b * k).min(16384 + 22 + n);
+            let d = *rng.pick(&[-9i64, -8, -1, 0, 1]);
+            ((total as i64) - 22 - (n as i64) + d).max(0) as usize
+        }
         _ => {
             // log-uniform up to 16 KiB
             let bits = rng.range(8, 14);
